@@ -133,7 +133,7 @@ def apply_op(eng, c, step, trace):
     elif op == 'rmline':
         l = c.lines[eng.choose(len(c.lines))]
         trace.append(('remove line', l.index)); l.remove()
-        if l.driver is None and loaded and eng.choose(2):          # removing a line that is already removed is a no-op (clean-up lists may hold a line twice)
+        if loaded and eng.choose(2):          # removing a line that is already removed is a no-op (clean-up lists may hold a line twice)
             trace.append(('remove the same line again',)); l.remove()
     elif op == 'rmnode':
         cand = [n for n in nodes if all(l is None for l in n.ins) and all(l is None for l in n.outs)]
